@@ -143,7 +143,12 @@ def run(ctx):
             'singleton_value returns %s' % [u(r.value) for r in rets], sv.loc(), instance='returns-cached')
   cc = ctx.func('config.clear_config')
   cl = [a for a in acc if a.store == '_SINGLETONS' and a.func is cc and a.method == 'clear']
-  ctx.check(bool(cl), 'C18.key', construct(cc), 'clear_config forgets cached singletons', 'clear_config no longer clears the singleton cache', cc.loc(),
-            instance='cleared')
+  from ..cfg import witness as _wit
+  gcc = prog.cfg(cc)
+  cln = [n for a in cl for n in gcc.nodes_for(enclosing_stmt(a.node))]
+  always = bool(cln) and _wit(gcc, gcc.entry.id, [gcc.exit.id], avoid=[n.id for n in cln]) is None
+  ctx.check(always, 'C18.key', construct(cc), 'clear_config forgets cached singletons on every path',
+            'clear_config does not clear the singleton cache on every path (e.g. only with clear_constants, or only when bindings exist): a later '
+            'configuration receives the old object', cc.loc(), instance='cleared')
   from .common import lock_order
   lock_order(ctx, 'C18.lock-order')
